@@ -1363,22 +1363,31 @@ void timeout value, job execution will be unbounded");
 
 	/* prepare */
 	if (prep_task(&xt) < 0) {
+		static const char msg[] = "\
+The task's working directory or files could not be set up, not executing.";
+		xt.errmsg = msg;
+		xt.errmsz = strlenof(msg);
 		rc = 127;
-		goto clean_up;
+		goto fatal;
 	}
 	/* set our sigs loose */
 	unblock_sigs();
 	/* and here we go */
 	if (run_task(&xt) < 0) {
 		/* bollocks */
+		static const char msg[] = "\
+The task's shell could not be started.";
+		xt.errmsg = msg;
+		xt.errmsz = strlenof(msg);
 		rc = 127;
-		goto clean_up;
+		goto fatal;
 	}
 
 	if (0) {
 	fatal:
+		/* the journal and the mail tell them what's become of it */
 		ECHS_ERR_LOG("%s", xt.errmsg);
-		rc = -1;
+		rc = rc ?: -1;
 	} else {
 		/* finally, inherit task's return code */
 		rc = WEXITSTATUS(xt.xc);
